@@ -208,11 +208,12 @@ json.dump(out, open(sys.argv[2], "w"))
 def _matrix_run(args) -> dict:
     import subprocess
     exe, cases_path, out_path, script, pythonpath = args
-    r = subprocess.run([exe, "-B", script, cases_path, out_path], capture_output=True, text=True, timeout=1800,
+    exe, *flags = exe.split(" ")
+    r = subprocess.run([exe, "-B", *flags, script, cases_path, out_path], capture_output=True, text=True, timeout=1800,
                        env={"PYTHONPATH": pythonpath, "PYTHONHASHSEED": "0", "PYTHONDONTWRITEBYTECODE": "1", "PATH": "/usr/bin:/bin"})
     if r.returncode != 0 or not os.path.exists(out_path):
-        return {"exe": exe, "error": (r.stderr or r.stdout).strip().splitlines()[-1:] or ["no output"]}
-    return {"exe": exe, "outcomes": json.load(open(out_path))}
+        return {"exe": args[0], "error": (r.stderr or r.stdout).strip().splitlines()[-1:] or ["no output"]}
+    return {"exe": args[0], "outcomes": json.load(open(out_path))}
 
 
 def interpreter_matrix(ctx: Ctx, k: int, sites_per_occurrence) -> dict:
@@ -233,8 +234,8 @@ def interpreter_matrix(ctx: Ctx, k: int, sites_per_occurrence) -> dict:
         minor = int(ver.split(".")[1])
         if 8 <= minor and os.path.realpath(e) != here and ver != "%d.%d.%d" % sys.version_info[:3]:
             exes.append(e)
-    if not exes:
-        return {"skipped": "no other interpreter found under /root/.pyenv/versions"}
+    # ... and this interpreter with assertions and docstrings stripped (python -O / -OO, PYTHONOPTIMIZE)
+    exes = [sys.executable + " -O", sys.executable + " -OO"] + exes
     sub = valuecheck.subject()
     sites = tvgen.Sites(sub.objects)
     cases: List[Any] = []
@@ -263,6 +264,24 @@ def interpreter_matrix(ctx: Ctx, k: int, sites_per_occurrence) -> dict:
         if not sname.startswith("_") and hasattr(sub.types, sname):
             mini(tvgen.value_strategy(sub.objects, ("struct", sname), tvgen.GenCfg(max_nodes=60)), 2, (ctx.seed, "C01-matrix-s", sname),
                  lambda x: cases.append([sname, erase(x[0])]))
+    # inputs that must be rejected (one field of a valid value replaced: out-of-range number, value outside a closed
+    # enumeration, other literal, required property removed - C11's edits): the verdict must not depend on the interpreter
+    from . import c11
+    n_valid = len(cases)
+    for sname in sorted(sub.model.structs):
+        if sname.startswith("_") or not hasattr(sub.types, sname):
+            continue
+        key = ("struct", sname)
+        got: List[Any] = []
+        mini(tvgen.value_strategy(sub.objects, key, tvgen.GenCfg(mode="min", max_nodes=40)), 1, (ctx.seed, "C01-matrix-bad", sname), lambda x: got.append(x[0]))
+        if not got:
+            continue
+        for p_ in sub.objects.props(key):
+            for edit in c11.edits_for(sub, p_):
+                if p_["name"] not in got[0].props and edit != "delete-required":
+                    continue
+                val = None if edit == "delete-required" else c11.replacement(sub, p_, edit, len(cases))
+                cases.append([sname, c11.apply_edit(erase(got[0]), (), p_, edit, val)])
     d = gen.scratch("lspverif-matrix-")
     try:
         cases_path, script = os.path.join(d, "cases.json"), os.path.join(d, "runner.py")
@@ -275,9 +294,9 @@ def interpreter_matrix(ctx: Ctx, k: int, sites_per_occurrence) -> dict:
         base = results[0]
         if "error" in base:
             raise runner.HarnessError(f"matrix runner fails under the check's own interpreter: {base['error']}")
-        stats = {"cases": len(cases), "interpreters": [], "comparisons": 0, "unusable": []}
+        stats = {"cases": len(cases), "valid_inputs": n_valid, "inputs_to_reject": len(cases) - n_valid, "interpreters": [], "comparisons": 0, "unusable": []}
         for r in results[1:]:
-            ver = os.path.basename(os.path.dirname(os.path.dirname(r["exe"])))
+            ver = os.path.basename(os.path.dirname(os.path.dirname(r["exe"].split(" ")[0]))) + "".join(" " + f for f in r["exe"].split(" ")[1:])
             if "error" in r:
                 # cannot even import the package with these libraries: reported, not judged (the libraries are the venv's)
                 stats["unusable"].append([ver, str(r["error"])[:160]])
@@ -286,7 +305,7 @@ def interpreter_matrix(ctx: Ctx, k: int, sites_per_occurrence) -> dict:
             for (name, j), a, b in zip(cases, base["outcomes"], r["outcomes"]):
                 stats["comparisons"] += 1
                 if a != b:
-                    ctx.finding(("interpreter-differs", name, "python" + ".".join(ver.split(".")[:2])),
+                    ctx.finding(("interpreter-differs", name, "python" + ".".join(ver.split(" ")[0].split(".")[:2]) + ver[len(ver.split(" ")[0]):]),
                                 f"{name} {json.dumps(j)[:160]}: Python {ver} gives {str(b)[:120]}, Python {sys.version_info.major}.{sys.version_info.minor} gives {str(a)[:120]}",
                                 {"type": name, "json": j, "interpreter": r["exe"]})
         return stats
